@@ -389,4 +389,31 @@ theorem normFile_stable' (f : File) (hw : wfFile f = true) :
     simpa [isEmpty_map'] using h6
   · simp only [normFile, hcs.2, hk.2]
 
+/-! ## a well-formed source distributes to a well-formed file -/
+
+theorem all_wf_of : ∀ ds : List Decl, ds.all wfDecl = true →
+    (filetypesOf ds).all wfFiletype = true ∧ (structsOf ds).all wfStruct = true
+  | [], _ => ⟨rfl, rfl⟩
+  | d :: ds, h => by
+    simp only [List.all_cons, Bool.and_eq_true] at h
+    obtain ⟨i1, i2⟩ := all_wf_of ds h.2
+    cases d with
+    | filetype t => exact ⟨by simp only [filetypesOf, List.all_cons, i1, Bool.and_true]; exact h.1, i2⟩
+    | struct s => exact ⟨i1, by simp only [structsOf, List.all_cons, i2, Bool.and_true]; exact h.1⟩
+    | stage s => exact ⟨i1, i2⟩
+    | pipeline p => exact ⟨i1, i2⟩
+
+theorem wfFile_distribute (incs : List Bytes) (ds : List Decl) (call : Option Call2)
+    (hw : wfSource incs ds call = true) : wfFile (distribute incs ds call) = true := by
+  obtain ⟨h1, h2, h3⟩ := wfSource_parts hw
+  obtain ⟨h4, h5⟩ := all_wf_of ds h2
+  have h6 := all_wfCallable_callablesOf ds h2
+  simp only [wfSource, Bool.and_eq_true] at hw
+  have hne := hw.2
+  simp only [wfFile, distribute, Bool.and_eq_true]
+  refine ⟨⟨⟨⟨⟨h1, h4⟩, h5⟩, h6⟩, h3⟩, ?_⟩
+  cases ds with
+  | nil => simpa [filetypesOf, structsOf, callablesOf] using hne
+  | cons d ds => cases d <;> simp [filetypesOf, structsOf, callablesOf]
+
 end Martian.FormatFile
